@@ -4,6 +4,7 @@ const { mk } = require('../lib/static_driver')
 const { enumerate, addStats } = require('../lib/explore')
 const F = require('../grammar/families')
 const { v8compile, trailerInfo } = require('../oracles/v8parse')
+const C0 = require('../grammar/configs')
 
 // grammar-sensitive surroundings (hole @@ takes an instrumentable operation)
 const CONTEXTS = [
@@ -58,6 +59,18 @@ module.exports = mk({
     for (const tok of lexicalTokens(tier)) for (const place of LEX_PLACES) for (const config of ['FULL', 'COMMENTS']) {
       r.stats.states++; r.stats.transitions++
       leaves.push({ fam: 'lexical', key: 'lex¦' + place.length + place.slice(40, 60) + '¦' + tok + '¦' + config, code: place.split('@@').join(tok), config, desc: 'lexical token' })
+    }
+    // inputs that declare an original map of every kind, chaining on and off: whatever becomes of that map, the
+    // content ends with exactly one decodable trailer
+    {
+      const b64 = (x) => Buffer.from(x, 'utf8').toString('base64')
+      const REFS = { missing_file: 'not-shipped.js.map', valid: 'data:application/json;base64,' + b64(JSON.stringify({ version: 3, sources: ['o.ts'], names: [], mappings: 'AAAA;AACA;AACA' })), empty_mappings: 'data:application/json;base64,' + b64(JSON.stringify({ version: 3, sources: ['o.ts'], names: [], mappings: '' })), not_json: 'data:application/json;base64,' + b64('hello'), bad_base64: 'data:application/json;base64,@@@@', empty_url: '' }
+      const BODIES = ['function f(a, b) { return a + b() }\n', "'use strict';\nfunction f(a) {\n  return a.trim()\n}\n", 'export function f(a) { return `${a}` }\n']
+      for (const [rn, u] of Object.entries(REFS)) for (let bi = 0; bi < BODIES.length; bi++) for (const chain of [true, false]) for (const comments of [true, false]) for (const form of ['line', 'block']) {
+        r.stats.states++; r.stats.transitions++
+        const ref = form === 'line' ? '//# sourceMappingURL=' + u + '\n' : '/*# sourceMappingURL=' + u + ' */\n'
+        leaves.push({ fam: 'mapref', key: ['mapref', rn, bi, chain, comments, form].join('¦'), code: BODIES[bi] + ref, config: Object.assign({}, C0.FULL, { chainSourceMap: chain, comments }), desc: 'mapref ' + rn })
+      }
     }
     // inputs that mention identifiers with the reserved prefix: either refused, or the content must still load
     const e = require('./C06.js').familyE()
